@@ -137,6 +137,10 @@ def cases(rng, tier):
     # oct keys given as text: the key is the UTF-8 octets of the text, whatever its first and last characters are
     for t in ["secret", "secret\n", " secret", "\tsecret\r\n", "se cret", "\x0bsecret\x0c", "\ufeffsecret", "sécret ", "\x00secret\x00", " "]:
         out.append({"op": "oct_str", "text": t})
+    # raw oct secrets that happen to look like JSON, through JsonWebKey.import_key(raw, {"kty": "oct"}): the key is those octets
+    for t in ['{"a":1}', '{not json}', '{"kty":"oct","k":"AAAA"}', '[1]', '{}', '"x"']:
+        for as_bytes in (True, False):
+            out.append({"op": "oct_raw_jwk", "text": t, "bytes": as_bytes})
     # private JWKs as other software writes them (all RFC 7517 common members; RSA with the RFC 7518 §6.3.2.7 "oth" member): public exports
     for kind in ("RSA-2048", "EC-P-256", "OKP-Ed25519"):
         for oth in ((False, True) if kind.startswith("RSA") else (False,)):
@@ -213,6 +217,13 @@ def impl(c):
         f = getattr(ec_key, "_coordinate_to_base64", None)
         bits = {"P-256": 256, "P-384": 384, "P-521": 521, "secp256k1": 256}[c["crv"]]
         return {"out": (f(int(c["n"]), bits) if f else int_to_base64(int(c["n"]))).encode().hex()}
+    if op == "oct_raw_jwk":
+        raw = c["text"].encode() if c["bytes"] else c["text"]
+        try:
+            key = JsonWebKey.import_key(raw, {"kty": "oct"})
+            return {"k": key.as_dict(is_private=True)["k"], "thumbprint": key.thumbprint(), "kty": key.kty}
+        except Exception as e:
+            return {"refused": type(e).__name__}
     if op == "oct_str":
         key = OctKey.import_key(c["text"])
         kb = OctKey.import_key(c["text"].encode("utf-8"))
@@ -356,6 +367,11 @@ def oracle(c, out):
         dec = b64d(bytes.fromhex(out["out"]).decode())
         if len(dec) != c["len"] or int.from_bytes(dec, "big") != int(c["n"]):
             bad(f"EC member encoded on {len(dec)} octets instead of the full {c['len']}", kind="ec-length", crv=c["crv"])
+    elif op == "oct_raw_jwk":
+        want = R.b64u(c["text"].encode()).decode()
+        if out.get("k") != want or out.get("kty") != "oct":
+            bad(f"JsonWebKey.import_key({c['text']!r} as {'bytes' if c['bytes'] else 'str'}, kty=oct): {out}; the raw key octets encode as {want!r}", kind="member-encoding", member="k",
+                kty="oct", form="raw-json-lookalike")
     elif op == "oct_str":
         raw = c["text"].encode("utf-8")
         want = R.b64u(raw).decode()
